@@ -12,6 +12,7 @@ def extra(led, tier, seed):
     led.extend(F.affinity_obligations())
     led.extend(F.init_obligations())
     led.extend(F.get_gemini_obligations())
+    led.extend(F.copy_obligations())
     from contracts import gemini_registry
     led.extend(o for o in gemini_registry.obligations() if o.name.startswith("registry"))
     led.extend(F.domain_linkage())
